@@ -124,6 +124,34 @@ def reseedChain (h : Heap) (fuel : Nat) (target : Nat) : Option Heap :=
   ((path fuel target []).foldl (fun (hh : Option Heap) e => hh.bind (fun x => edgeInvert x e)) (some h)).map
     (fun x => x.setPar target none)
 
+/-- one iteration of the loop of `Tree.suppress_unifurcations`, at node `nd`: a node with exactly one child is spliced out —
+`pos = parent._child_nodes.index(nd); parent.remove_child(nd); parent.insert_child(pos, child); nd._parent_node = None`, or, for
+the parentless seed, `child._parent_node = None` (the tree's seed becomes that child).  `nd` keeps its own child list, as in
+the code.  (Edge lengths are merged at tree level: `sup`.) -/
+def supStep (h : Heap) (nd : Nat) : Heap :=
+  match h.ch nd with
+  | [child] =>
+    match h.par nd with
+    | some parent =>
+      let pos := ((h.ch parent).idxOf? nd).getD 0
+      match removeChild h parent nd with
+      | none => h
+      | some h1 => (insertChild h1 parent pos child).setPar nd none
+    | none => h.setPar child none
+  | _ => h
+
+mutual
+/-- node ids in post-order (`postorder_node_iter`) -/
+def postIds : T → List Nat
+  | .node i _ _ _ cs => postIdsL cs ++ [i]
+def postIdsL : List T → List Nat
+  | [] => []
+  | c :: cs => postIds c ++ postIdsL cs
+end
+
+/-- the loop of `Tree.suppress_unifurcations` over a visiting order -/
+def supLoop (h : Heap) (order : List Nat) : Heap := order.foldl supStep h
+
 mutual
 /-- the heap a tree stands for: `par`/`ch` of every node of `t`, hanging under `p` -/
 def ofTree (p : Option Nat) (h : Heap) : T → Heap
